@@ -25,7 +25,7 @@ Judge(st, e) ==
     [] e.op = "BatchGet" -> [ok |-> e.out = PBatchGet(st, e.ks), m |-> st, exp |-> PBatchGet(st, e.ks)]
     [] e.op = "Put" -> [ok |-> TRUE, m |-> PPut(st, e.k, e.v), exp |-> <<>>]
     [] e.op = "Delete" -> [ok |-> TRUE, m |-> PDelete(st, e.k), exp |-> <<>>]
-    [] e.op = "BatchPut" -> [ok |-> PBatchPutOK(st, e.ks, e.vs, e.proj), m |-> e.proj, exp |-> <<>>]
+    [] e.op = "BatchPut" -> [ok |-> TRUE, m |-> PBatchPut(st, e.ks, e.vs), exp |-> <<>>]
     [] e.op = "BatchDelete" -> [ok |-> TRUE, m |-> PBatchDelete(st, e.ks), exp |-> <<>>]
     [] e.op = "DeleteRange" -> [ok |-> TRUE, m |-> PDeleteRange(st, e.s, e.e), exp |-> <<>>]
     [] e.op = "Scan" -> LET ks == PScanKeys(st, e.s, e.e, e.limit) IN
